@@ -2,6 +2,7 @@
 From LLF Require Import Base Row Bitfield Lower Spec Sorted Upper UpperInvDef LowerFacts UpperGetLoops.
 
 Ltac inv H := inversion H; subst; clear H.
+Ltac splits := repeat match goal with |- _ /\ _ => split end.
 
 (* ============================================================================================== *)
 (* C13: the class returned by a successful get is the requested class, or a class for which the
@@ -242,3 +243,126 @@ Section C13.
     - discriminate.
   Qed.
 End C13.
+
+(* ============================================================================================== *)
+(* the lower `get` attempt of the upper allocator, through the interface record *)
+Section LgetLow.
+  Variable g : geom.
+  Hypothesis LF : lower_facts g.
+  Notation TF := (TF g).
+
+  Lemma with_low_same u : with_low u (low u) = u.
+  Proof. destruct u; reflexivity. Qed.
+
+  Lemma lget_low_spec u row k frame r u' :
+    LowerInv g (low u) -> (k <= tord g)%nat ->
+    match frame with
+    | None => row_tree g row < ntab g (frames (low u))
+    | Some f => aligned f k = true /\ f + pow2 k <= frames (low u)
+    end ->
+    lget_low g u row k frame = (r, u') ->
+    trees u' = trees u /\ locals u' = locals u /\ dflt u' = dflt u /\
+    match r with
+    | Ok f =>
+        match frame with Some f0 => f = f0 | None => f / TF = row_tree g row end /\
+        spec_get_enabled (abs g (low u)) f k = true /\
+        abs g (low u') = spec_get g (abs g (low u)) f k /\
+        LowerInv g (low u') /\ frames (low u') = frames (low u) /\
+        (forall t, tree_free g (low u') t + delta t (f / TF) (pow2 k) = tree_free g (low u) t)
+    | Err e =>
+        e = EMemory /\ u' = u /\
+        match frame with
+        | Some f0 => spec_get_enabled (abs g (low u)) f0 k = false
+        | None => forall f, f / TF = row_tree g row -> spec_get_enabled (abs g (low u)) f k = false
+        end
+    | Panic _ => False
+    end.
+  Proof.
+    intros HL Hk Hpre H. unfold lget_low in H.
+    destruct (lower_get_opt g (low u) row k frame) as [r0 l'] eqn:E. inv H.
+    cbn [with_low trees locals dflt low]. splits; try reflexivity.
+    unfold lower_get_opt in E. destruct frame as [f0|].
+    - destruct Hpre as [Ha Hb].
+      destruct (lower_get_at g (low u) f0 k) as [r1 l1] eqn:E1.
+      pose proof (lf_get_at g LF _ _ _ _ _ HL Hk Ha Hb E1) as Hs.
+      destruct r1 as [[]|e|s]; inv E.
+      + destruct Hs as (H1 & H2 & H3 & H4 & H5). splits; auto.
+      + destruct Hs as (H1 & H2 & H3). subst. rewrite with_low_same. splits; auto.
+      + exact Hs.
+    - pose proof (lf_get g LF _ _ _ _ _ HL Hk Hpre E) as Hs.
+      destruct r as [f|e|s].
+      + destruct Hs as (H0 & H1 & H2 & H3 & H4 & H5). splits; auto.
+      + destruct Hs as (H1 & H2 & H3). subst. rewrite with_low_same. splits; auto.
+      + exact Hs.
+  Qed.
+End LgetLow.
+
+(* ============================================================================================== *)
+(* policy hypotheses (local copies; UpperPrims.v defines the same names) *)
+Definition pol_kind (p : pol) : N := match p with PMatch _ => 0 | PDemote => 1 | PSteal => 2 | PInvalid => 3 end.
+Definition pol_refl_match (policy : N -> N -> N -> pol) : Prop :=
+  forall c f, pol_is_match (policy c c f) = true.
+Definition pol_kind_indep (policy : N -> N -> N -> pol) : Prop :=
+  forall r t f f', pol_kind (policy r t f) = pol_kind (policy r t f').
+Definition pol_never_invalid (policy : N -> N -> N -> pol) : Prop :=
+  forall r t f, pol_is_invalid (policy r t f) = false.
+(* a slot demoted from class b into class a keeps the tree's class c: U4 needs Demote(a,b), keeps(b,c) => keeps(a,c) *)
+Definition pol_demote_trans (policy : N -> N -> N -> pol) : Prop :=
+  forall a b c f f', policy a b f = PDemote -> pol_keeps (policy b c f') = true -> pol_keeps (policy a c f') = true.
+
+(* the ordered policies of the repository (simple / movable / zeroed): requested > target: Steal,
+   requested < target: Demote, equal: Match(m free) *)
+Definition ordered_policy (m : N -> N) (r t f : N) : pol :=
+  if t <? r then PSteal else if r <? t then PDemote else PMatch (m f).
+
+Lemma ordered_refl_match m : pol_refl_match (ordered_policy m).
+Proof. intros c f. unfold ordered_policy. rewrite N.ltb_irrefl. reflexivity. Qed.
+Lemma ordered_kind_indep m : pol_kind_indep (ordered_policy m).
+Proof. intros r t f f'. unfold ordered_policy. destruct (t <? r), (r <? t); reflexivity. Qed.
+Lemma ordered_never_invalid m : pol_never_invalid (ordered_policy m).
+Proof. intros r t f. unfold ordered_policy. destruct (t <? r), (r <? t); reflexivity. Qed.
+Lemma ordered_demote_trans m : pol_demote_trans (ordered_policy m).
+Proof.
+  intros a b c f f'. unfold ordered_policy.
+  destruct (N.ltb_spec b a); [discriminate|]. destruct (N.ltb_spec a b); [|discriminate]. intros _.
+  destruct (N.ltb_spec c b); [discriminate|]. intros _.
+  destruct (N.ltb_spec c a); [lia|]. destruct (N.ltb_spec a c); reflexivity.
+Qed.
+
+(* ============================================================================================== *)
+(* Why `pol_demote_trans` is needed: a policy that is reflexive-Match, kind-independent of `free`
+   and never Invalid, but not transitive (0 -> 1 Demote, 1 -> 2 Demote, 0 -> 2 Steal).  Two demotes
+   in a row leave a class-0 slot on a tree whose class is still 2; the invariant (U4) fails after
+   the get and a following drain panics at "unreserve invalid class" (trees.rs:392). *)
+Module DemoteTransCex.
+  Definition g := {| hord := 9; tlog := 2 |}.
+  Definition pol3 (r t f : N) : pol :=
+    if r =? t then PMatch 1
+    else if r <? t then (if (r =? 0) && (t =? 2) then PSteal else PDemote) else PSteal.
+  Definition lower0 := {| frames := 0; bfs := []; ents := [] |}.
+  Definition u0 := match llfree_new g 4096 IFreeAll [(0,1);(1,1);(2,1)] 2 lower0 [] (repeat slot_none 3) with
+                   | Ok u => u
+                   | _ => {| low := lower0; trees := []; locals := []; dflt := 0 |}
+                   end.
+  Definition rq o c l := {| r_order := o; r_class := c; r_local := l |}.
+  Definition step (x : ustate) (r : request) := ghost_lift (fun u => llfree_get g pol3 u None r) x.
+  Definition x3 := snd (step (snd (step (snd (step (ustate_new u0) (rq 11 2 None))) (rq 0 2 (Some 0)))) (rq 0 1 (Some 0))).
+End DemoteTransCex.
+
+Lemma upper_inv_needs_demote_trans :
+  let pol3 := DemoteTransCex.pol3 in
+  pol_refl_match pol3 /\ pol_kind_indep pol3 /\ pol_never_invalid pol3 /\
+  upper_invb DemoteTransCex.g pol3 DemoteTransCex.x3 = true /\
+  exists f c x4,
+    DemoteTransCex.step DemoteTransCex.x3 (DemoteTransCex.rq 0 0 (Some 0)) = (Ok (f, c), x4) /\
+    upper_invb DemoteTransCex.g pol3 x4 = false /\
+    fst (llfree_drain DemoteTransCex.g pol3 (us x4)) = Panic SUnreserveClass.
+Proof.
+  cbv zeta. split; [|split; [|split; [|split]]].
+  - intros c f. unfold DemoteTransCex.pol3. rewrite N.eqb_refl. reflexivity.
+  - intros r t f f'. reflexivity.
+  - intros r t f. unfold DemoteTransCex.pol3.
+    destruct (r =? t), (r <? t), ((r =? 0) && (t =? 2)); reflexivity.
+  - vm_compute. reflexivity.
+  - eexists _, _, _. split; [vm_compute; reflexivity|]. split; vm_compute; reflexivity.
+Qed.
